@@ -25,6 +25,7 @@ ASSUMPTIONS = [
     "Grishagin members are limited to a pool of 12 numbers per run to bound construction cost",
 ]
 NONTRIVIAL_FLOOR = {"quick": 100, "thorough": 1000}
+NP_ERR = dict(np.geterr())
 
 
 def plan(tier):
@@ -76,6 +77,9 @@ class PureMachine(MachineMixin, RuleBasedStateMachine):
 
     def _construct(self, fam, arg):
         p = bench.construct(fam, tuple(arg) if isinstance(arg, (list, tuple)) else arg)
+        if np.geterr() != NP_ERR:
+            fail("constructing %s(%r) left numpy's floating-point error handling at %r (it was %r): later evaluations "
+                 "of other problems depend on that process-wide setting" % (fam, arg, np.geterr(), NP_ERR))
         self.pool.append((fam, repr(arg), p))
         self.constructions += 1
         self.cls.add("family=" + fam)
